@@ -283,3 +283,121 @@ def frame_obligations(fe, modname, clsname=None, functions=None):
                         status='proved' if not bad else 'failed', secs=0, backend='syntactic',
                         reason='; '.join(bad[:3])))
     return out
+
+
+def store_census(fe, modname, allowed_program_writes, self_program_attrs=('program', 'types'), allowed_roots=()):
+    """census[<function>]: every heap write of the module (attribute / subscript store, augmented assignment, deletion,
+    in-place mutator call) either goes through `self` (bookkeeping of the visitor; but not through self.program / self.types)
+    or through a local bound to a freshly created object / container (literal, comprehension, copy, deepcopy), or through one
+    of `allowed_roots` (names of the analysis' own data structures, e.g. the type graph), or its attribute is in
+    `allowed_program_writes` -- the attributes the property statement allows the mutation to change (each of those stores
+    carries a site obligation of the function's slice contract).  Syntactic, from the real AST."""
+    m = fe.module(modname)
+    fns = [('%s.%s' % (modname, n), f) for n, f in m.functions.items()]
+    for cn, ci in m.classes.items():
+        fns += [('%s.%s.%s' % (modname, cn, n), f) for n, f in ci.methods.items()]
+    out = []
+    for qual, fn in fns:
+        fresh = set()
+        for n in ast.walk(fn):
+            if isinstance(n, ast.Assign) and len(n.targets) == 1 and isinstance(n.targets[0], ast.Name):
+                v = n.value
+                if isinstance(v, (ast.List, ast.Dict, ast.Set, ast.ListComp, ast.DictComp, ast.SetComp)) or (
+                        isinstance(v, ast.Call) and isinstance(v.func, ast.Name) and v.func.id in CREATORS):
+                    fresh.add(n.targets[0].id)
+        # a name bound more than once to something that is not fresh is not fresh
+        for n in ast.walk(fn):
+            if isinstance(n, ast.Assign):
+                for t in n.targets:
+                    if isinstance(t, ast.Name) and t.id in fresh:
+                        v = n.value
+                        ok = isinstance(v, (ast.List, ast.Dict, ast.Set, ast.ListComp, ast.DictComp, ast.SetComp)) or (
+                            isinstance(v, ast.Call) and isinstance(v.func, ast.Name) and v.func.id in CREATORS)
+                        if not ok:
+                            fresh.discard(t.id)
+        bad = []
+        for n in ast.walk(fn):
+            targets = []
+            if isinstance(n, ast.Assign):
+                targets = n.targets
+            elif isinstance(n, (ast.AugAssign, ast.AnnAssign)):
+                targets = [n.target]
+            elif isinstance(n, ast.Delete):
+                targets = n.targets
+            elif isinstance(n, ast.Call) and isinstance(n.func, ast.Attribute) and n.func.attr in MUTATORS:
+                targets = [ast.Attribute(value=n.func.value, attr='<mutated>', ctx=ast.Store())] \
+                    if not isinstance(n.func.value, ast.Name) else [ast.Subscript(value=n.func.value, slice=ast.Constant(0), ctx=ast.Store())]
+            for t in targets:
+                for tt in (t.elts if isinstance(t, (ast.Tuple, ast.List)) else [t]):
+                    if isinstance(tt, ast.Name):
+                        continue
+                    # the attribute that is written: x.a = v -> a ; x.a[k] = v -> a ; x[k] = v -> container x itself
+                    e = tt
+                    while isinstance(e, ast.Subscript):
+                        e = e.value
+                    if isinstance(e, ast.Attribute) and e.attr == '<mutated>':
+                        e = e.value
+                        while isinstance(e, ast.Subscript):
+                            e = e.value
+                    attr = e.attr if isinstance(e, ast.Attribute) else None
+                    r = root_name(tt)
+                    chain = []
+                    x = tt
+                    while isinstance(x, (ast.Attribute, ast.Subscript, ast.Call)):
+                        if isinstance(x, ast.Attribute):
+                            chain.append(x.attr)
+                        x = x.func if isinstance(x, ast.Call) else x.value
+                    first = chain[-1] if chain else None          # first attribute after the root
+                    if r == 'self' and (first not in self_program_attrs or len(chain) == 1 and isinstance(tt, ast.Attribute)):
+                        continue        # (self.program = ... rebinds the reference, it does not write into the program)
+                    if r in fresh or r in allowed_roots:
+                        continue
+                    if attr in allowed_program_writes:
+                        continue
+                    bad.append('line %d: %s' % (n.lineno, ast.unparse(n)[:90]))
+        out.append(dict(name='%s/census[writes-only-what-the-statement-allows]' % qual, function=qual, lineno=fn.lineno,
+                        kind='proof', status='proved' if not bad else 'failed', secs=0, backend='syntactic',
+                        reason='; '.join(bad[:3])))
+    return out
+
+
+def ir_mutator_names(fe, modules=('src.ir.ast', 'src.ir.context', 'src.ir.types', 'src.ir.builtins')):
+    """names of the methods of the IR modules that (transitively, by method name) write through `self`"""
+    meths = []
+    for mod in modules:
+        m = fe.module(mod)
+        for cn, ci in m.classes.items():
+            for n, f in ci.methods.items():
+                if n != '__init__':
+                    meths.append((n, f))
+    mut = {n for n, f in meths if written_attrs(f)}
+    changed = True
+    while changed:
+        changed = False
+        for n, f in meths:
+            if n in mut:
+                continue
+            for c in ast.walk(f):
+                if isinstance(c, ast.Call) and isinstance(c.func, ast.Attribute) and c.func.attr in mut:
+                    mut.add(n)
+                    changed = True
+                    break
+    return mut
+
+
+def mutator_call_census(fe, modname, allowed_calls, mutators):
+    """calls[<function>]: the module calls a mutating method of the IR (by name, transitive) only where the statement allows it"""
+    m = fe.module(modname)
+    fns = [('%s.%s' % (modname, n), f) for n, f in m.functions.items()]
+    for cn, ci in m.classes.items():
+        fns += [('%s.%s.%s' % (modname, cn, n), f) for n, f in ci.methods.items()]
+    out = []
+    for qual, fn in fns:
+        bad = []
+        for c in ast.walk(fn):
+            if isinstance(c, ast.Call) and isinstance(c.func, ast.Attribute) and c.func.attr in mutators \
+                    and c.func.attr not in allowed_calls:
+                bad.append('line %d: %s' % (c.lineno, ast.unparse(c)[:90]))
+        out.append(dict(name='%s/calls[no-ir-mutator-except-allowed]' % qual, function=qual, lineno=fn.lineno, kind='proof',
+                        status='proved' if not bad else 'failed', secs=0, backend='syntactic', reason='; '.join(bad[:3])))
+    return out
